@@ -1,14 +1,18 @@
 import HcipyVerif.Lemmas.FieldProg
+import HcipyVerif.Lemmas.FourierSwitch
 
 /-!
 # C19 — results do not depend on the configured Field implementation (model level)
 
-All theorems are about the two interpreters of `Model/FieldProg.lean` (`runO`: ndarray-subclass
+The first half is about the two interpreters of `Model/FieldProg.lean` (`runO`: ndarray-subclass
 route, `runN`: wrapper route).  That these interpreters behave like hcipy's `OldStyleField` /
 `NewStyleField` on NumPy is *not* proved — NumPy's dispatch machinery is run-time behaviour — it is
-checked on every run by the four-way differential test of `harness/props/c19.py`.
-The Fourier switches (emulated shifts, MFT precomputation/allocation, FFT backend) have no model
-here: they are covered by the pipeline runs of the harness (and by C01 for the index arithmetic).
+checked on every run by the differential test of `harness/props/c19.py` (plain / old / new / mixed
+style / both model routes; the driver's `run` op executes `runO`, `runN`, `agree?`, `disagreeAt`).
+The second half (section `Fourier`) is about `Model/FourierSwitch.lean`: backend selection of
+`hcipy/_math/fft.py:_make_func` and the cache switches of `MatrixFourierTransform` /
+`NaiveFourierTransform` (driver ops `select`, `mft`, `nft`).  Emulated shifts have no model here (C01's
+index arithmetic covers them); memory order in pickles and views are checked on the real code only.
 -/
 set_option linter.unusedSimpArgs false
 set_option linter.unusedVariables false
@@ -18,24 +22,42 @@ open HcipyVerif.FieldProg
 
 /-- **Both routes yield the same values** — after every statement (including the same exception
 at the same statement) and in the final read-out of every variable, aliases included — for every
-program, every grid table, unbounded sizes.  `ProgAgree` only constrains `shaped` nodes (their
-operand must be the same kind of object under both routes, see `shaped_needs_agreeing_tags`);
-for programs without `shaped` it is vacuous (`backends_same_values_noShaped`). -/
-theorem backends_same_values (gs : Grids) (p : List Stmt) (h : ProgAgree gs {} {} p) :
+program, every grid table, unbounded sizes.  The hypothesis is the *decidable* check `agree?` (run by
+the driver for every generated program, reported as `agree=`): no `shaped` node is applied to an object
+that the two routes tag differently.  It is `true` for every program without `shaped`
+(`backends_same_values_noShaped`); where it is `false` the routes really differ
+(`shaped_needs_agreeing_tags`, `agree_detects_0d_shaped`) — the harness generates such programs and
+logs them as accepted divergence after checking that the real code diverges exactly as predicted. -/
+theorem backends_same_values (gs : Grids) (p : List Stmt) (h : agree? gs p = true) :
     traceData ((runO gs {} p).1, (runO gs {} p).2.map OState.dump) =
     traceData ((runN gs {} p).1, (runN gs {} p).2.map NState.dump) :=
-  run_same_values gs p {} {} rel_init h
+  run_same_values gs p {} {} rel_init (progAgreeB_sound gs p {} {} h)
 
-/-- the hypothesis of `backends_same_values` is satisfiable by a program that uses `shaped` -/
-example : ProgAgree [(0, some [2, 2])] {} {}
-    [.assign 0 (.shaped (.field ⟨[4], .real, [⟨1, 0⟩, ⟨2, 0⟩, ⟨3, 0⟩, ⟨4, 0⟩]⟩ 0))] :=
-  ⟨⟨trivial, rfl⟩, fun _ _ _ _ => trivial⟩
+/-- the hypothesis of `backends_same_values` is satisfied by a program that uses `shaped` -/
+example : agree? [(0, some [2, 2])]
+    [.assign 0 (.shaped (.field ⟨[4], .real, [⟨1, 0⟩, ⟨2, 0⟩, ⟨3, 0⟩, ⟨4, 0⟩]⟩ 0))] = true := by decide
+
+/-- the check passes for every program that does not use `.shaped` (so `backends_same_values` is
+unconditional there; the semantic form of the hypothesis, `ProgAgree`, and the proof that the check implies
+it are `FieldProg.progAgreeB_sound` / `FieldProg.run_same_values` in `Lemmas/FieldProg.lean`) -/
+theorem agree_of_noShaped (gs : Grids) (p : List Stmt) (h : ∀ st ∈ p, StmtNoShaped st) : agree? gs p = true :=
+  progAgreeB_of_noShaped gs p h {} {}
+
+/-- the statement index the driver reports (`A 0 <i>`) is `none` exactly when the check passes -/
+theorem agree_iff_no_disagreeing_statement (gs : Grids) (p : List Stmt) :
+    disagreeAt gs p = none ↔ agree? gs p = true :=
+  progDisagreeAt_none_iff gs p {} {} 0
+
+/-- the check rejects the program on which the routes differ (`shaped` of a full reduction) -/
+theorem agree_detects_0d_shaped :
+    agree? [(0, some [1])] [Stmt.assign 0 (.shaped (.red .max .all (.field ⟨[1], .real, [⟨3, 0⟩]⟩ 0)))] = false := by
+  decide
 
 /-- Unconditional form: every program that does not use `.shaped`. -/
 theorem backends_same_values_noShaped (gs : Grids) (p : List Stmt) (h : ∀ st ∈ p, StmtNoShaped st) :
     traceData ((runO gs {} p).1, (runO gs {} p).2.map OState.dump) =
     traceData ((runN gs {} p).1, (runN gs {} p).2.map NState.dump) :=
-  backends_same_values gs p (progAgree_of_noShaped gs p h {} {})
+  backends_same_values gs p (agree_of_noShaped gs p h)
 
 /-- Expression level, any two wrapping policies and any stores that read the same values. -/
 theorem expression_same_values (P Q : Policy) (gs : Grids) (lo ln : Nat → Except Err Val)
@@ -54,13 +76,17 @@ theorem shaped_needs_agreeing_tags :
   constructor <;> rfl
 
 /-- **Elementwise results keep the grid (subclass route)**: a ufunc with a Field operand returns a
-Field on the grid of the leftmost Field operand, whatever the shape. -/
+Field on the grid of the leftmost Field operand, whatever the shape.  (A reading of the rule `oldPolicy.ufunc`
+encodes — definitional; that NumPy's view-casting + `__array_finalize__` follow this rule is what the driver's
+`run` op and the per-route correspondence on tags tie to the running code, and the oracle's node-level check
+`grid-lost` / `grid-changed` tests on the real code without the model.) -/
 theorem elementwise_keeps_grid_old (ts : List Tag) (a : Arr) (g : Nat) (h : leftGrid ts = some g) :
     oldPolicy.ufunc ts a = .field g := by
   simp [oldPolicy, h]
 
 /-- **Elementwise results keep the grid (wrapper route)**: the same, unless the raw result is 0-d
-(NumPy then hands back a scalar, which the wrapper leaves bare). -/
+(NumPy then hands back a scalar, which the wrapper leaves bare).  Definitional in the same sense as
+`elementwise_keeps_grid_old`; the evaluated forms are `elementwise_keeps_grid_route_old/_new`. -/
 theorem elementwise_keeps_grid_new (ts : List Tag) (a : Arr) (g : Nat) (h : leftGrid ts = some g)
     (hnd : a.shape ≠ []) : newPolicy.ufunc ts a = .field g := by
   have : a.shape.isEmpty = false := by
@@ -69,20 +95,46 @@ theorem elementwise_keeps_grid_new (ts : List Tag) (a : Arr) (g : Nat) (h : left
     | cons _ _ => rfl
   simp [newPolicy, h, hnd]
 
-/-- **Elementwise results carry the grid of the Field operand** — as a statement about evaluated
-binary expressions under both routes at once: if the operands are the same kinds of object under
-both routes and one of them is a Field, then (unless the result is 0-d) both routes return a Field
-on the grid of the leftmost Field operand. -/
-theorem elementwise_keeps_grid (gs : Grids) (lo ln : Nat → Except Err Val) (op : BinOp) (l r : Expr)
-    (al ar : Arr) (tl tr : Tag) (g : Nat)
-    (hlo : eval oldPolicy gs lo l = .ok (al, tl)) (hro : eval oldPolicy gs lo r = .ok (ar, tr))
-    (hln : eval newPolicy gs ln l = .ok (al, tl)) (hrn : eval newPolicy gs ln r = .ok (ar, tr))
-    (hg : leftGrid [tl, tr] = some g) (a : Arr) (hk : Prim.binop op al ar = .ok a) (hnd : a.shape ≠ []) :
-    eval oldPolicy gs lo (.bin op l r) = .ok (a, .field g) ∧
+/-- **Elementwise results carry the grid of the Field operand (subclass route, evaluated)**: whatever
+the operands evaluate to under this route, if one of them is a Field the result is a Field on the grid
+of the leftmost one — 0-d results included. -/
+theorem elementwise_keeps_grid_route_old (gs : Grids) (lo : Nat → Except Err Val) (op : BinOp) (l r : Expr)
+    (vl vr : Val) (g : Nat)
+    (hl : eval oldPolicy gs lo l = .ok vl) (hr : eval oldPolicy gs lo r = .ok vr)
+    (hg : leftGrid [vl.2, vr.2] = some g) (a : Arr) (hk : Prim.binop op vl.1 vr.1 = .ok a) :
+    eval oldPolicy gs lo (.bin op l r) = .ok (a, .field g) := by
+  simp [eval, hl, hr, hk, Except.map, elementwise_keeps_grid_old _ _ _ hg]
+
+/-- the same for the wrapper route, unless the raw result is 0-d -/
+theorem elementwise_keeps_grid_route_new (gs : Grids) (ln : Nat → Except Err Val) (op : BinOp) (l r : Expr)
+    (vl vr : Val) (g : Nat)
+    (hl : eval newPolicy gs ln l = .ok vl) (hr : eval newPolicy gs ln r = .ok vr)
+    (hg : leftGrid [vl.2, vr.2] = some g) (a : Arr) (hk : Prim.binop op vl.1 vr.1 = .ok a) (hnd : a.shape ≠ []) :
     eval newPolicy gs ln (.bin op l r) = .ok (a, .field g) := by
-  constructor
-  · simp [eval, hlo, hro, hk, Except.map, elementwise_keeps_grid_old _ _ _ hg]
-  · simp [eval, hln, hrn, hk, Except.map, elementwise_keeps_grid_new _ _ _ hg hnd]
+  simp [eval, hl, hr, hk, Except.map, elementwise_keeps_grid_new _ _ _ hg hnd]
+
+/-- both routes at once; the operands may be *different kinds of object* under the two routes (a 0-d
+Field vs a scalar, a bare array vs a Field after `np.where`) — each route attaches the grid of its own
+leftmost Field operand -/
+theorem elementwise_keeps_grid (gs : Grids) (lo ln : Nat → Except Err Val) (op : BinOp) (l r : Expr)
+    (al ar : Arr) (tlo tro tln trn : Tag) (g g' : Nat)
+    (hlo : eval oldPolicy gs lo l = .ok (al, tlo)) (hro : eval oldPolicy gs lo r = .ok (ar, tro))
+    (hln : eval newPolicy gs ln l = .ok (al, tln)) (hrn : eval newPolicy gs ln r = .ok (ar, trn))
+    (hgo : leftGrid [tlo, tro] = some g) (hgn : leftGrid [tln, trn] = some g')
+    (a : Arr) (hk : Prim.binop op al ar = .ok a) (hnd : a.shape ≠ []) :
+    eval oldPolicy gs lo (.bin op l r) = .ok (a, .field g) ∧
+    eval newPolicy gs ln (.bin op l r) = .ok (a, .field g') :=
+  ⟨elementwise_keeps_grid_route_old gs lo op l r _ _ g hlo hro hgo a hk,
+   elementwise_keeps_grid_route_new gs ln op l r _ _ g' hln hrn hgn a hk hnd⟩
+
+/-- satisfiable: `Field([1, 2], g0) + 1.0` -/
+example :
+    eval oldPolicy [] (fun _ => .error .unsupported) (.bin .add (.field ⟨[2], .real, [⟨1, 0⟩, ⟨2, 0⟩]⟩ 0) (.scal ⟨1, 0⟩ .real))
+      = .ok (⟨[2], .real, [⟨2, 0⟩, ⟨3, 0⟩]⟩, .field 0) ∧
+    eval newPolicy [] (fun _ => .error .unsupported) (.bin .add (.field ⟨[2], .real, [⟨1, 0⟩, ⟨2, 0⟩]⟩ 0) (.scal ⟨1, 0⟩ .real))
+      = .ok (⟨[2], .real, [⟨2, 0⟩, ⟨3, 0⟩]⟩, .field 0) :=
+  elementwise_keeps_grid [] _ _ .add _ _ _ _ (.field 0) .scalar (.field 0) .scalar 0 0 rfl rfl rfl rfl rfl rfl _
+    (by decide +kernel) (by decide)
 
 /-- the same for unary ufuncs -/
 theorem elementwise_keeps_grid_unary (gs : Grids) (lo ln : Nat → Except Err Val) (u : UnOp) (e : Expr)
@@ -96,17 +148,47 @@ theorem elementwise_keeps_grid_unary (gs : Grids) (lo ln : Nat → Except Err Va
   · cases u <;> simp [eval, ho, hk, Except.map, unTag, elementwise_keeps_grid_old _ _ _ hg]
   · cases u <;> simp [eval, hn, hk, Except.map, unTag, elementwise_keeps_grid_new _ _ _ hg hnd]
 
-/-- **copy and pickle round trips**: under any wrapping policy, `copy(e)` and
-`pickle.loads(pickle.dumps(e))` evaluate to exactly what `e` evaluates to — same values, same
-shape and dtype class, same kind of object, same grid. -/
+/-- satisfiable: `-Field([1, 2], g0)` -/
+example :
+    eval oldPolicy [] (fun _ => .error .unsupported) (.un .neg (.field ⟨[2], .real, [⟨1, 0⟩, ⟨2, 0⟩]⟩ 0))
+      = .ok (⟨[2], .real, [⟨-1, 0⟩, ⟨-2, 0⟩]⟩, .field 0) :=
+  (elementwise_keeps_grid_unary [] _ (fun _ => .error .unsupported) .neg _ _ 0 rfl rfl _ rfl (by decide)).1
+
+/-- **The 0-d divergence, stated**: on a 0-d raw result with a Field operand the subclass route returns
+a 0-d *Field on the grid*, the wrapper route a bare *scalar* — for ufuncs and for reductions alike.  This
+is the one place where "elementwise results stay attached to the same grid" fails between the styles;
+the values are equal (`backends_same_values`).  Accepted divergence (NumPy returns scalars for 0-d
+results; the harness counts the occurrences as `tags old/new:f…/s`). -/
+theorem zero_dim_divergence (ts : List Tag) (a : Arr) (g : Nat) (h : leftGrid ts = some g) (h0 : a.shape = []) :
+    oldPolicy.ufunc ts a = .field g ∧ newPolicy.ufunc ts a = .scalar ∧
+    oldPolicy.reduce (.field g) a = .field g ∧ newPolicy.reduce (.field g) a = .scalar := by
+  simp [oldPolicy, newPolicy, h, h0]
+
+/-- … and its consequence one operation later: `f.sum() * np.array([1, 2])` is a Field under the
+subclass route and a bare ndarray under the wrapper route (same values) -/
+theorem zero_dim_divergence_propagates :
+    let e := Expr.bin .mul (.red .sum .all (.field ⟨[2], .real, [⟨1, 0⟩, ⟨2, 0⟩]⟩ 0)) (.lit ⟨[2], .real, [⟨1, 0⟩, ⟨2, 0⟩]⟩)
+    eval oldPolicy [] (fun _ => .error .unsupported) e = .ok (⟨[2], .real, [⟨3, 0⟩, ⟨6, 0⟩]⟩, .field 0) ∧
+    eval newPolicy [] (fun _ => .error .unsupported) e = .ok (⟨[2], .real, [⟨3, 0⟩, ⟨6, 0⟩]⟩, .plain) := by
+  decide +kernel
+
+/-- **copy and pickle round trips** (a statement about how the model *defines* the two operations, not a
+derivation from the pickling code): under any wrapping policy, `copy(e)` and `pickle.loads(pickle.dumps(e))`
+evaluate to exactly what `e` evaluates to — same values, same shape and dtype class, same kind of object,
+same grid.  `eval` passes the tag through and restores the array from its `ndarray.__reduce__` state
+(`setstate_getstate`); memory order, `_field_reconstruct` and the slicing of the state tuple in
+`__setstate__` are not modelled.  What carries the clause "fields survive copy and pickle" for the running
+code is the tie: the real `copy` (3 spellings) and `pickle` (protocols 2–5) results of both styles are compared
+with this identity at every such node (values, dtype, kind of object, grid, no shared memory: `_roundtrip_check`),
+including F-ordered and non-contiguous Fields in the extended programs. -/
 theorem copy_pickle_roundtrip (P : Policy) (gs : Grids) (look : Nat → Except Err Val) (e : Expr) :
     eval P gs look (.copy e) = eval P gs look e ∧ eval P gs look (.pickle e) = eval P gs look e := by
   constructor
   · cases h : eval P gs look e <;> simp [eval, h]
   · cases h : eval P gs look e <;> simp [eval, h, Prim.setstate, Prim.getstate]
 
-/-- the ndarray state survives `__setstate__(__getstate__())`, whatever array it is restored into -/
-theorem setstate_getstate (fresh a : Arr) : Prim.setstate fresh (Prim.getstate a) = a := rfl
+/-- the ndarray state (shape, dtype class, data) survives `__setstate__(__getstate__())` -/
+theorem setstate_getstate (a : Arr) : Prim.setstate (Prim.getstate a) = a := rfl
 
 
 /-- **Grid rule for every further modelled operation** (reductions with keepdims, cumsum/cumprod,
@@ -118,10 +200,22 @@ theorem fnTag_keeps_grid (c : TagClass) (hc : c ≠ .func) (ts : List Tag) (a : 
     fnTag oldPolicy c (.field g :: ts) a = .field g ∧ fnTag newPolicy c (.field g :: ts) a = .field g := by
   cases c <;> simp_all [fnTag, oldPolicy, newPolicy, leftGrid]
 
+/-- for the many-operand classes (ufuncs such as `clip`, hcipy functions such as `field_dot`) the rule is
+"leftmost Field", wherever it stands in the argument list -/
+theorem fnTag_keeps_grid_left (c : TagClass) (hc : c = .ufunc ∨ c = .lib) (ts : List Tag) (a : Arr) (g : Nat)
+    (h : leftGrid ts = some g) (hnd : a.shape ≠ []) :
+    fnTag oldPolicy c ts a = .field g ∧ fnTag newPolicy c ts a = .field g := by
+  rcases hc with rfl | rfl <;> simp_all [fnTag, oldPolicy, newPolicy]
+
+example : leftGrid [.plain, .scalar, .field 3] = some 3 := rfl
+
 /-- `np.where(c, a, b)` is the one modelled operation on which the routes attach *different* kinds
 of object: NumPy does not preserve the subclass (bare ndarray under the subclass route), while the
 wrapper's `__array_function__` wraps the result on the grid of the leftmost Field argument.
-The values are the same (`backends_same_values`). -/
+The values are the same (`backends_same_values`).  A reading of `Policy.func` (definitional); accepted
+divergence of the clause "results stay attached to the same grid": the harness does not apply its grid
+check to `np.where` and counts `.shaped` of such a result as `accepted-divergence:shaped-of-p/f` after
+checking that the real styles behave exactly as stated here. -/
 theorem where_grid_rule (ts : List Tag) (a : Arr) (g : Nat) (h : leftGrid ts = some g) :
     fnTag oldPolicy (Fn3.cls .where_) ts a = .plain ∧ fnTag newPolicy (Fn3.cls .where_) ts a = .field g := by
   simp [fnTag, Fn3.cls, oldPolicy, newPolicy, h]
@@ -138,6 +232,12 @@ theorem app1_keeps_grid (gs : Grids) (lo ln : Nat → Except Err Val) (f : Prim.
   constructor
   · simp [eval, ho, hk, Except.map, this.1]
   · simp [eval, hn, hk, Except.map, this.2]
+
+/-- satisfiable: `np.cumsum(Field([1, 2], g0))` -/
+example :
+    eval oldPolicy [] (fun _ => .error .unsupported) (.app1 (.cumsum .last) (.field ⟨[2], .real, [⟨1, 0⟩, ⟨2, 0⟩]⟩ 0))
+      = .ok (⟨[2], .real, [⟨1, 0⟩, ⟨3, 0⟩]⟩, .field 0) :=
+  (app1_keeps_grid [] _ (fun _ => .error .unsupported) (.cumsum .last) _ _ 0 rfl rfl _ (by decide +kernel) (by decide)).1
 
 /-- **In-place statements write through (subclass route)** — for *every* in-place statement of
 the model (`x op= e`, `x[i] = e`, `x[..., m] = e`, `x[i] op= e`, `x[..., m] op= e`,
@@ -185,14 +285,33 @@ theorem inplace_writes_through_old (gs : Grids) (so so' : OState) (x : Nat) (u :
             · subst hyx; rw [hx] at hy; exact absurd (Option.some.inj hy).symm hne
             · simp [hyx, hy, List.getElem?_set_ne (Ne.symm hne)]
 
+/-- Python's `x = y` is the statement `.alias x y`; written as an assignment of the expression `y` it is
+outside the model on both routes (it used to be a copy, which no Python program does) -/
+theorem assign_of_bare_variable_unsupported (gs : Grids) (so : OState) (sn : NState) (x y : Nat) :
+    stepO gs so (.assign x (.var y)) = .error .unsupported ∧ stepN gs sn (.assign x (.var y)) = .error .unsupported :=
+  ⟨rfl, rfl⟩
+
+/-- the hypotheses of `inplace_writes_through_old` / `_new` are satisfiable: `x = Field([1, 2], g0); h = x;
+x += 1` succeeds on both routes and the alias `h` reads the updated values -/
+example :
+    let prog : List Stmt := [.assign 0 (.field ⟨[2], .real, [⟨1, 0⟩, ⟨2, 0⟩]⟩ 0), .alias 1 0,
+      .update 0 (.iop .add) [.scal ⟨1, 0⟩ .real]]
+    ((runO [] {} prog).2.map fun s => s.look 1) = some (.ok (⟨[2], .real, [⟨2, 0⟩, ⟨3, 0⟩]⟩, .field 0)) ∧
+    ((runN [] {} prog).2.map fun s => s.look 1) = some (.ok (⟨[2], .real, [⟨2, 0⟩, ⟨3, 0⟩]⟩, .field 0)) := by
+  decide +kernel
+
 /-- **In-place statements write through (wrapper route)**: the same for the wrapper store — every
 variable whose wrapper shares `x`'s buffer reads the updated array (although `x op= e` binds `x` to
-a *new* wrapper), variables on other buffers are unchanged. -/
+a *new* wrapper), variables on other buffers are unchanged; `x` itself reads the updated array and, if it
+was a Field, **still is a Field on its grid** (for `x op= e` the new wrapper takes the grid of the leftmost
+Field among `(x, e)`, which is `x`).  That the real wrapper writes into `self.data` on every in-place path
+is what the differential run ties (`stepN` does so by definition). -/
 theorem inplace_writes_through_new (gs : Grids) (sn sn' : NState) (x : Nat) (u : Prim.Upd) (args : List Expr) (r : Nat × Tag)
     (hx : sn.vars.lookup x = some r) (hstep : stepN gs sn (.update x u args) = .ok sn') :
     ∃ xa vs a, sn.bufs[r.1]? = some xa ∧ evalArgs newPolicy gs sn.look args = .ok vs ∧
       Prim.update u xa (vs.map Prod.fst) = .ok a ∧
-      (∃ t, sn'.look x = .ok (a, t)) ∧
+      sn'.look x = .ok (a, if Upd.rebinds u then iopTagN r.2 ((vs.map Prod.snd).headD .plain) else r.2) ∧
+      (∀ g, r.2 = .field g → sn'.look x = .ok (a, .field g)) ∧
       (∀ h rh, h ≠ x → sn.vars.lookup h = some rh → rh.1 = r.1 → sn'.look h = .ok (a, rh.2)) ∧
       (∀ y ry, sn.vars.lookup y = some ry → ry.1 ≠ r.1 → sn'.look y = sn.look y) := by
   simp only [stepN, hx] at hstep
@@ -212,10 +331,14 @@ theorem inplace_writes_through_new (gs : Grids) (sn sn' : NState) (x : Nat) (u :
         have hlt : r.1 < sn.bufs.length := by
           rcases List.getElem?_eq_some_iff.mp hc with ⟨hlt, _⟩
           exact hlt
-        refine ⟨xa, vs, a, rfl, rfl, hp, ?_, ?_, ?_⟩
+        refine ⟨xa, vs, a, rfl, rfl, hp, ?_, ?_, ?_, ?_⟩
         · cases hr : Upd.rebinds u with
-          | false => exact ⟨r.2, by simp [NState.look, hx, List.getElem?_set_self hlt]⟩
-          | true => exact ⟨iopTagN r.2 ((vs.map Prod.snd).headD .plain), by simp [NState.look, lookup_bind, List.getElem?_set_self hlt]⟩
+          | false => simp [NState.look, hx, List.getElem?_set_self hlt]
+          | true => simp [NState.look, lookup_bind, List.getElem?_set_self hlt]
+        · intro g hg
+          cases hr : Upd.rebinds u with
+          | false => simp [NState.look, hx, hg, List.getElem?_set_self hlt]
+          | true => simp [NState.look, lookup_bind, hg, iopTagN, leftGrid, List.getElem?_set_self hlt]
         · intro h rh hne hh hb
           cases hr : Upd.rebinds u with
           | false => simp [NState.look, hh, hb, List.getElem?_set_self hlt]
@@ -229,14 +352,23 @@ theorem inplace_writes_through_new (gs : Grids) (sn sn' : NState) (x : Nat) (u :
             · subst hyx; rw [hx] at hy; exact absurd (congrArg Prod.fst (Option.some.inj hy)).symm hne
             · simp [hyx, hy, List.getElem?_set_ne (Ne.symm hne)]
 
-/-- **A copy is independent**: `y = x.copy()` gives `y` a fresh object, so no later in-place
-statement on `x` reaches `y` (subclass route; the wrapper route is the same statement with buffers). -/
-theorem copy_is_independent_old (gs : Grids) (so s1 s2 : OState) (x y : Nat) (u : Prim.Upd) (args : List Expr) (c : Nat)
+/-- **The stores are view-free: an assigned value is independent (subclass route)** — after `y = e`, no
+later in-place statement on another variable `x` reaches `y`.  For `e = x.copy()`, `pickle.loads(pickle.dumps(x))`
+and every arithmetic expression this is NumPy's behaviour; for view-producing `e` (`x[..., 0:2]`, `x.reshape(…)`,
+`x.real`, `x.shaped`) it is *not*: the model copies where NumPy shares memory.  The harness therefore never lets
+the model read such a `y` after an update of `x`; that the real styles treat views alike is checked on the real
+code only (oracle key `view-read`), and that real copies / pickles share no memory by `_roundtrip_check`. -/
+theorem assigned_value_is_independent_old (gs : Grids) (so s1 s2 : OState) (x y : Nat) (e : Expr) (u : Prim.Upd)
+    (args : List Expr) (c : Nat)
     (hxy : y ≠ x) (hx : so.vars.lookup x = some c) (hc : c < so.cells.length)
-    (h1 : stepO gs so (.assign y (.copy (.var x))) = .ok s1)
+    (h1 : stepO gs so (.assign y e) = .ok s1)
     (h2 : stepO gs s1 (.update x u args) = .ok s2) : s2.look y = s1.look y := by
   simp only [stepO, evalO] at h1
-  cases hv : eval oldPolicy gs so.look (.copy (.var x)) with
+  cases hiv : e.isVar with
+  | true => simp [hiv] at h1
+  | false =>
+  simp only [hiv, Bool.false_eq_true, if_false] at h1
+  cases hv : eval oldPolicy gs so.look e with
   | error err => simp [hv, Except.map] at h1
   | ok v =>
     simp only [hv, Except.map, Except.ok.injEq] at h1
@@ -245,5 +377,209 @@ theorem copy_is_independent_old (gs : Grids) (so s1 s2 : OState) (x y : Nat) (u 
       simp [lookup_bind, Ne.symm hxy, hx]
     obtain ⟨_, _, _, _, _, _, _, hother⟩ := inplace_writes_through_old gs _ s2 x u args c hx1 h2
     exact hother y so.cells.length (by simp [lookup_bind]) (by omega)
+
+/-- the same for the wrapper route: `y = e` puts the value into a new buffer -/
+theorem assigned_value_is_independent_new (gs : Grids) (sn s1 s2 : NState) (x y : Nat) (e : Expr) (u : Prim.Upd)
+    (args : List Expr) (r : Nat × Tag)
+    (hxy : y ≠ x) (hx : sn.vars.lookup x = some r) (hr : r.1 < sn.bufs.length)
+    (h1 : stepN gs sn (.assign y e) = .ok s1)
+    (h2 : stepN gs s1 (.update x u args) = .ok s2) : s2.look y = s1.look y := by
+  simp only [stepN, evalN] at h1
+  cases hiv : e.isVar with
+  | true => simp [hiv] at h1
+  | false =>
+  simp only [hiv, Bool.false_eq_true, if_false] at h1
+  cases hv : eval newPolicy gs sn.look e with
+  | error err => simp [hv, Except.map] at h1
+  | ok v =>
+    simp only [hv, Except.map, Except.ok.injEq] at h1
+    subst h1
+    have hx1 : (bind sn.vars y (sn.bufs.length, v.2)).lookup x = some r := by
+      simp [lookup_bind, Ne.symm hxy, hx]
+    obtain ⟨_, _, _, _, _, _, _, _, _, hother⟩ := inplace_writes_through_new gs _ s2 x u args r hx1 h2
+    exact hother y (sn.bufs.length, v.2) (by simp [lookup_bind]) (by simp; omega)
+
+/-- satisfiable (both routes): `x = Field([1, 2], g0); y = x.copy(); x += 1` -/
+example :
+    let prog : List Stmt := [.assign 0 (.field ⟨[2], .real, [⟨1, 0⟩, ⟨2, 0⟩]⟩ 0), .assign 1 (.copy (.var 0)),
+      .update 0 (.iop .add) [.scal ⟨1, 0⟩ .real]]
+    ((runO [] {} prog).2.map fun s => s.look 1) = some (.ok (⟨[2], .real, [⟨1, 0⟩, ⟨2, 0⟩]⟩, .field 0)) ∧
+    ((runN [] {} prog).2.map fun s => s.look 1) = some (.ok (⟨[2], .real, [⟨1, 0⟩, ⟨2, 0⟩]⟩, .field 0)) ∧
+    ((runO [] {} prog).2.map fun s => s.look 0) = some (.ok (⟨[2], .real, [⟨2, 0⟩, ⟨3, 0⟩]⟩, .field 0)) ∧
+    ((runN [] {} prog).2.map fun s => s.look 0) = some (.ok (⟨[2], .real, [⟨2, 0⟩, ⟨3, 0⟩]⟩, .field 0)) := by
+  decide +kernel
+
+/-! ## The Fourier half: backend selection, MFT / NFT switches (`Model/FourierSwitch.lean`)
+
+Tied by the driver ops `select`, `mft`, `nft` (harness: `run_select_tie`, `run_cache_tie`): the real
+`_make_func` closures are re-made over recording fake backends, and the attributes of reused real
+`MatrixFourierTransform` / `NaiveFourierTransform` objects are read after every call. -/
+section Fourier
+open HcipyVerif.FourierSwitch HcipyVerif.FourierSwitch.Spec
+
+/-- **Backend selection returns the first working backend** in the order the code tries them
+(threads-major: every method with the first number of threads, then every method with the next),
+`ValueError` iff none works.  Any list of methods, any availability / failure pattern. -/
+theorem select_first_working (cpu : Nat) (avail : Method → Bool) (works : Method → Nat → Bool)
+    (methods : List Method) (threads : Option Nat) (big : Bool) :
+    select cpu avail works methods threads big =
+      match (tryOrder methods (threadAttempts cpu threads big)).find? (fun p => callable avail works p.1 p.2) with
+      | some p => .ok p
+      | none => .error .value :=
+  selectIn_eq_find avail works methods _
+
+/-- what `select_first_working` gives for a successful selection: the backend is in the list, is
+importable, did not raise, was called in one of the thread attempts — and it is not `other` -/
+theorem select_ok_sound (cpu : Nat) (avail : Method → Bool) (works : Method → Nat → Bool)
+    (methods : List Method) (threads : Option Nat) (big : Bool) (m : Method) (t : Nat)
+    (h : select cpu avail works methods threads big = .ok (m, t)) :
+    m ∈ methods ∧ t ∈ threadAttempts cpu threads big ∧ usable avail m = true ∧ works m t = true ∧ m ≠ .other := by
+  rw [select_first_working] at h
+  cases hf : (tryOrder methods (threadAttempts cpu threads big)).find? (fun p => callable avail works p.1 p.2) with
+  | none => simp [hf] at h
+  | some p =>
+    simp only [hf, Except.ok.injEq] at h
+    subst h
+    have hp := List.find?_some hf
+    have hm := List.mem_of_find?_eq_some hf
+    simp only [tryOrder, List.mem_flatMap, List.mem_map, Prod.mk.injEq] at hm
+    obtain ⟨t', ht, m', hm', rfl, rfl⟩ := hm
+    simp only [callable, Bool.and_eq_true] at hp
+    refine ⟨hm', ht, hp.1, hp.2, ?_⟩
+    intro ho; rw [ho] at hp; simp [usable] at hp
+
+example : select 4 (fun _ => false) (fun m t => m == .numpy || t == 1) [.mkl, .scipy, .numpy] none true = .ok (.numpy, 4) := rfl
+
+/-- **Selection is total when `threads` is left at `None`**: the only exception it can raise is the
+`ValueError`, and it raises it iff no listed backend works with any attempted number of threads; in
+particular one backend that works single-threaded suffices, whatever the size of the input. -/
+theorem select_total_when_threads_none (cpu : Nat) (avail : Method → Bool) (works : Method → Nat → Bool)
+    (methods : List Method) (big : Bool) :
+    (∀ e, select cpu avail works methods none big = .error e ↔
+      e = .value ∧ ∀ t ∈ threadAttempts cpu none big, ∀ m ∈ methods, callable avail works m t = false) ∧
+    ((∃ m ∈ methods, callable avail works m 1 = true) → ∃ r, select cpu avail works methods none big = .ok r) := by
+  refine ⟨fun e => selectIn_error_iff avail works methods _ e, ?_⟩
+  rintro ⟨m, hm, hc⟩
+  cases hs : select cpu avail works methods none big with
+  | ok r => exact ⟨r, rfl⟩
+  | error e =>
+    have := ((selectIn_error_iff avail works methods _ e).mp hs).2 1 (by cases big <;> simp [threadAttempts]) m hm
+    rw [this] at hc; cases hc
+
+/-- with an explicit `threads=t` (after D190): that number of threads only -/
+theorem select_explicit_threads (cpu : Nat) (avail : Method → Bool) (works : Method → Nat → Bool)
+    (methods : List Method) (t : Nat) (big : Bool) :
+    (∃ r, select cpu avail works methods (some t) big = .ok r) ↔ ∃ m ∈ methods, callable avail works m t = true := by
+  constructor
+  · rintro ⟨⟨m, t'⟩, h⟩
+    obtain ⟨hm, ht, hu, hw, _⟩ := select_ok_sound _ _ _ _ _ _ _ _ h
+    simp only [threadAttempts, List.mem_singleton] at ht
+    subst ht
+    exact ⟨m, hm, by simp [callable, hu, hw]⟩
+  · rintro ⟨m, hm, hc⟩
+    cases hs : select cpu avail works methods (some t) big with
+    | ok r => exact ⟨r, rfl⟩
+    | error e =>
+      have := ((selectIn_error_iff avail works methods _ e).mp hs).2 t (by simp [threadAttempts]) m hm
+      rw [this] at hc; cases hc
+
+/-- **/repo before D190**: every call with an explicit `threads=` raises `UnboundLocalError`, whatever
+the backends do — although the repaired code succeeds as soon as one listed backend works with that
+number of threads (defect D190; `Old` code — documentation, the tie runs `select`). -/
+theorem Old.selectOld_explicit_threads_crashes (cpu : Nat) (avail : Method → Bool) (works : Method → Nat → Bool)
+    (methods : List Method) (t : Nat) (big : Bool) :
+    selectOld cpu avail works methods (some t) big = .error .unbound ∧
+    ((∃ m ∈ methods, callable avail works m t = true) →
+      ∃ r, select cpu avail works methods (some t) big = .ok r) :=
+  ⟨rfl, (select_explicit_threads cpu avail works methods t big).mpr⟩
+
+/-- **The result does not depend on which backend answered**: if every backend computes the same
+transform `dft` (for every number of workers) and the input has a standard bit depth (single, double,
+integer), then every successful configuration — any method list, any `threads=`, any pattern of missing
+or failing backends — returns `dft x` at the native bit depth of the input. -/
+theorem select_value_independent {X Y : Type} (k : Method → Option Nat → X → Y) (dft : X → Y)
+    (hk : ∀ m w x, m ≠ .other → k m w x = dft x)
+    (cpu : Nat) (avail : Method → Bool) (works : Method → Nat → Bool) (methods : List Method)
+    (threads : Option Nat) (big : Bool) (d : DtIn) (hd : d.standard = true) (x : X) (r : Prec × Y)
+    (h : fftResult k cpu avail works methods threads big d x = .ok r) : r = (nativePrec d, dft x) := by
+  unfold fftResult at h
+  cases hs : select cpu avail works methods threads big with
+  | error e => simp [hs, Except.map] at h
+  | ok mt =>
+    obtain ⟨m, t⟩ := mt
+    simp only [hs, Except.map, Except.ok.injEq] at h
+    subst h
+    have hne := (select_ok_sound _ _ _ _ _ _ _ _ hs).2.2.2.2
+    rw [hk m _ x hne]
+    congr 1
+    cases m <;> cases d <;> simp_all [outPrec, numpyPrec, nativePrec, DtIn.standard]
+
+example : fftResult (fun _ _ (x : Nat) => x + 1) 4 (fun _ => false) (fun _ _ => true) [.mkl, .numpy] (some 2) false .single 5
+    = .ok (.single, 6) := rfl
+
+/-- outside the standard depths the `numpy` branch *does* differ (float16 → complex128 instead of
+complex64, longdouble → complex128 instead of complex256): the harness checks that the real code shows
+exactly this and records it as an accepted divergence (bit depths hcipy does not use). -/
+theorem numpy_depth_divergence :
+    outPrec .numpy .half ≠ outPrec .scipy .half ∧ outPrec .numpy .longdouble ≠ outPrec .scipy .longdouble ∧
+    ∀ d, d.standard = true → ∀ m, outPrec m d = nativePrec d := by
+  refine ⟨by decide, by decide, ?_⟩
+  intro d hd m
+  cases m <;> cases d <;> simp_all [outPrec, numpyPrec, nativePrec, DtIn.standard]
+
+/-- **MFT switches**: for every call script on one `MatrixFourierTransform` object — any mixture of
+forward/backward, of complex64/complex128 inputs — and every setting of `precompute_matrices` and
+`allocate_intermediate`, every call returns what a fresh object with both switches off returns.
+Proof by the invariant `Keyed` (recorded dtype = dtype the matrices were made for). -/
+theorem mft_switch_independent {X M B R : Type} (K : MftKern X M B R) (pre alloc : Bool)
+    (script : List (Dir × CPrec × X)) :
+    mftRun K pre alloc script = script.map fun s => mftFresh K s.1 s.2.1 s.2.2 :=
+  mftRunFrom_spec K pre alloc script {} (keyed_empty K)
+
+/-- the same from any reachable (keyed) cache state, one call; the cache stays keyed -/
+theorem mft_call_independent {X M B R : Type} (K : MftKern X M B R) (pre alloc : Bool) (c : MftCache M B)
+    (hk : Keyed K c) (d : Dir) (p : CPrec) (x : X) :
+    (mftCall K pre alloc c d p x).1 = mftFresh K d p x ∧ Keyed K (mftCall K pre alloc c d p x).2 := by
+  obtain ⟨h1, h2⟩ := mftCall_spec K pre alloc c hk d p x
+  exact ⟨by rw [h1, mftFresh, (mftCall_spec K false false {} (keyed_empty K) d p x).1], h2⟩
+
+example : Keyed provKern (mftCall provKern true true {} .fwd .c64 (0, .c128)).2 :=
+  (mft_call_independent provKern true true {} (keyed_empty _) .fwd .c64 (0, .c128)).2
+
+/-- the same with the invariant as the *check the driver runs after every call* (`k1` in the answer of
+`C19 mft`; compared with `M1.dtype == matrices_dtype` read off the real object): from a cache that passes
+the check, the call returns what a fresh switch-less object returns, and the cache passes the check again -/
+theorem mft_call_independent_checked {X M B R : Type} [BEq M] [LawfulBEq M] (K : MftKern X M B R) (pre alloc : Bool)
+    (c : MftCache M B) (hk : keyedB K c = true) (d : Dir) (p : CPrec) (x : X) :
+    (mftCall K pre alloc c d p x).1 = mftFresh K d p x ∧ keyedB K (mftCall K pre alloc c d p x).2 = true := by
+  obtain ⟨h1, h2⟩ := mft_call_independent K pre alloc c ((keyedB_iff K c).mp hk) d p x
+  exact ⟨h1, (keyedB_iff K _).mpr h2⟩
+
+example : keyedB provKern ({} : MftCache CPrec BufProv) = true := rfl
+
+/-- the check is not vacuous: a cache whose recorded dtype does not describe its matrices fails it -/
+example : keyedB provKern ({ mats := some (.c64, .c128) } : MftCache CPrec BufProv) = false := rfl
+
+/-- the model *can* fail: with an intermediate that is allocated only when there is none (seeded
+defect C19-2), `allocate_intermediate=True` makes the second call of the script complex64 → complex128
+read the stale single-precision product of the first call; with the switch off it is correct. -/
+theorem mft_bad_cache_counterexample :
+    let script : List (Dir × CPrec × (Nat × CPrec)) := [(.fwd, .c64, (0, .c64)), (.fwd, .c128, (1, .c128))]
+    (mftRunFrom (mftCallBad provKern false true) {} script).1 ≠ script.map (fun s => mftFresh provKern s.1 s.2.1 s.2.2) ∧
+    (mftRunFrom (mftCallBad provKern false false) {} script).1 = script.map (fun s => mftFresh provKern s.1 s.2.1 s.2.2) := by
+  decide
+
+/-- **NFT switch**: with `precompute_matrices` on or off, every call of every script returns the
+on-the-fly sum cast to the complex dtype of the input — given that the cached matrix applied to a field
+*is* that sum (`hd`: the matrix identity, C02's subject; the harness checks it against the defining sum). -/
+theorem nft_switch_independent {X A R : Type} (K : NftKern X A R)
+    (hd : ∀ d x, K.apply (K.matrix d) x = K.direct d x) (pre : Bool) (script : List (Dir × CPrec × X)) :
+    (nftRunFrom K pre {} script).1 = (nftRunFrom K false {} script).1 := by
+  rw [nftRunFrom_spec K hd pre script {} (nftKeyed_empty K), nftRunFrom_spec K hd false script {} (nftKeyed_empty K)]
+
+example : ∃ K : NftKern Nat Nat Nat, ∀ d x, K.apply (K.matrix d) x = K.direct d x :=
+  ⟨⟨fun _ => 2, fun a x => a * x, fun _ x => 2 * x, fun _ r => r⟩, fun _ _ => rfl⟩
+
+end Fourier
 
 end HcipyVerif.C19
